@@ -161,6 +161,7 @@ type runner struct {
 	stop  bool
 	ticks int64 // completed top-level calls (watchdog progress)
 	apc   int64 // copy of pc readable by the watchdog
+	kept  []held // Key()/Value() answers of the running View session
 }
 
 var errAbort = errors.New("verif: callback aborts")
@@ -217,9 +218,42 @@ func okRec(err error) rec {
 	return rec{"t": "ok"}
 }
 
+// held is an answer of Key()/Value() that the caller keeps: the slice as it
+// was returned and a private copy of what it held at that moment. An ordered
+// map answers with values; an answer that changes when the iterator moves on
+// is not the answer the model gave (kvgraph DelVertex collects the keys it
+// iterates over and deletes them afterwards).
+type held struct {
+	got  []byte
+	copy string
+}
+
+func hold(hs []held, b []byte) []held {
+	if len(b) == 0 {
+		return hs
+	}
+	return append(hs, held{got: b, copy: string(b)})
+}
+
+// overwritten reports the first kept answer whose bytes changed afterwards.
+func overwritten(hs []held) string {
+	for _, h := range hs {
+		if string(h.got) != h.copy {
+			return fmt.Sprintf("returned-buffer-overwritten: a Key()/Value() answer %q reads %q after later iterator moves", h.copy, string(h.got))
+		}
+	}
+	return ""
+}
+
 // Scan reads the whole store with a forward iterator.
 func Scan(kv kvi.KVInterface) (rows [][]interface{}, note string) {
 	rows = [][]interface{}{}
+	var kept []held
+	defer func() {
+		if note == "" {
+			note = overwritten(kept)
+		}
+	}()
 	err := kv.View(func(it kvi.KVIterator) error {
 		it.Seek([]byte{})
 		for it.Valid() {
@@ -233,6 +267,7 @@ func Scan(kv kvi.KVInterface) (rows [][]interface{}, note string) {
 				note = "Value: " + verr.Error()
 			}
 			rows = append(rows, []interface{}{Unkey(k), string(v)})
+			kept = hold(hold(kept, k), v)
 			it.Next()
 		}
 		return nil
@@ -276,6 +311,17 @@ func position(it kvi.KVIterator, err error) (rec, bool) {
 	return x, true
 }
 
+// keep remembers the answers of the position the iterator stands at.
+func (r *runner) keep(it kvi.KVIterator, valid bool) {
+	if !valid {
+		return
+	}
+	r.kept = hold(r.kept, it.Key())
+	if v, verr := it.Value(); verr == nil {
+		r.kept = hold(r.kept, v)
+	}
+}
+
 // view runs the calls of a View session; it returns when the session ends.
 func (r *runner) view(it kvi.KVIterator) error {
 	valid := false
@@ -287,11 +333,13 @@ func (r *runner) view(it kvi.KVIterator) error {
 			x, valid = position(it, it.Seek(r.key()))
 			positioned = true
 			r.put(x)
+			r.keep(it, valid)
 		case "SeekReverse":
 			var x rec
 			x, valid = position(it, it.SeekReverse(r.key()))
 			positioned = true
 			r.put(x)
+			r.keep(it, valid)
 		case "Next":
 			if !positioned || !valid {
 				r.put(rec{"t": "desync", "why": "Next wanted but the driver's iterator is not valid"})
@@ -301,6 +349,7 @@ func (r *runner) view(it kvi.KVIterator) error {
 			var x rec
 			x, valid = position(it, it.Next())
 			r.put(x)
+			r.keep(it, valid)
 		case "ItGet":
 			r.put(getRec(it.Get(r.key())))
 		case "ViewEnd":
@@ -323,7 +372,12 @@ func (r *runner) after(end string, err error) {
 	}
 	switch r.op() {
 	case "ViewEnd":
-		r.put(okRec(err))
+		x := okRec(err)
+		if m := overwritten(r.kept); m != "" && err == nil {
+			x = rec{"t": "err", "err": m}
+		}
+		r.kept = nil
+		r.put(x)
 	case "Commit", "BulkEnd":
 		x := okRec(err)
 		if r.checked() {
